@@ -264,11 +264,14 @@ __CPROVER_ensures(IMPLIES(EP_NVALID(n) && __CPROVER_return_value < 0,
 /* source-to-sink plumbing                                                   */
 
 /* the sink driver accepted, as its positions [kp0, kp0+m), exactly the octets
- * [sp0, sp0+m) of the source stream, in order (v0: g_snk_val before) */
+ * [sp0, sp0+m) of the source stream, in order (v0: g_snk_val before): the
+ * octet it received at position g_b is the stream's octet at g_a whenever the
+ * two observed positions correspond, g_b - kp0 == g_a - sp0.  (Positions do
+ * not wrap, so the range test is the plain one.) */
 #define EP_PIPE_MOVED(sp0, kp0, v0, m) \
   (g_snk_pos == (size_t)((kp0) + (size_t)(m)) && g_snk_pos >= (kp0) \
-   && IMPLIES(EP_IN(g_b, (kp0), (m)) && (size_t)(g_a - (sp0)) == (size_t)(g_b - (kp0)), g_snk_val == g_val) \
-   && IMPLIES(!EP_IN(g_b, (kp0), (m)), g_snk_val == (v0)))
+   && IMPLIES((kp0) <= g_b && g_b < g_snk_pos && (size_t)(g_b - g_a) == (size_t)((kp0) - (sp0)), g_snk_val == g_val) \
+   && IMPLIES(!((kp0) <= g_b && g_b < g_snk_pos), g_snk_val == (v0)))
 /* the source driver delivered exactly t octets */
 #define EP_SRC_TOOK(sp0, t) (g_src_pos == (size_t)((sp0) + (size_t)(t)) && g_src_pos >= (sp0))
 /* a negative return value ret is the one hard error that one of the two
